@@ -389,5 +389,6 @@ pub fn run(ctx: &Ctx) -> &'static str {
         |_| check_apply,
     );
     crate::props::e2e::run(ctx, crate::props::e2e::Phase::Reload, ctx.tier.pick(1, 3));
+    crate::props::e2e::run(ctx, crate::props::e2e::Phase::ReloadEarly, ctx.tier.pick(1, 2));
     "exploration"
 }
